@@ -149,9 +149,10 @@ def bool_vars(op):
     return mm.index[mm['bool'].fillna(False).astype(bool)].values.astype(np.int64)
 
 
-def relaxed(rec, tag, blocks, reads_seed=None):
+def relaxed(rec, tag, blocks, reads_seed=None, drv=None, dis=None):
     """the same problem object optimised once more with make_soft_problem=True (booleans may take any value in [0, 1]):
-    an optimised portfolio like any other.  Returns (violations, features, evaluated)."""
+    an optimised portfolio like any other.  Returns (violations, features, evaluated).  With a driver (monolithic problems)
+    the model's DCF read-out of the relaxed solution is compared with the real table; disagreements are appended to `dis`."""
     viol, feats = [], []
     op = rec['op']
     rr = {k: rec[k] for k in ('portf', 'tg', 'prices', 'op') if k in rec}
@@ -168,6 +169,9 @@ def relaxed(rec, tag, blocks, reads_seed=None):
         if (frac & (np.abs(c[ib]) > 1e-9)).any():
             feats.append(tag + ':fractional-boolean-with-cost')
     viol += G.orc_value_accounting(rr, tag, blocks)
+    if drv is not None and dis is not None and rec.get('op_json') is not None:
+        dis += pf.corr_readout(rr, drv, what=('dcf',), opj=rec['op_json'])
+        feats.append(tag + ':model-readout-compared')
     if reads_seed is not None and not viol:
         v, f = read_sequence(rr, tag, blocks, reads_seed)
         viol += v
@@ -220,6 +224,12 @@ def gen_costly_bools(rnd, tmax=10):
             key = 'p%d' % len(prices)
             prices[key] = [v + gen.q8(rnd, -6, 3) for v in ref]
             args['price'] = key
+    # markets that take / give little: the plants and orders cannot all run at full size, so the relaxed problem settles
+    # at yes/no variables strictly between 0 and 1 (the MIP has to decide)
+    for m in mk.values():
+        if rnd.random() < 0.75:
+            m['args']['min_cap'] = -gen.q8(rnd, 0.5, 5)
+            m['args']['max_cap'] = gen.q8(rnd, 0.5, 5)
     s['stream'] = 'costly-bools'
     return s
 
